@@ -110,6 +110,20 @@ def cases(tier, seed):
         out.append({"kind": "oppack", "cases": oc[i:i + PACK]})
     for i in range(0, len(oc), PACK):
         out.append({"kind": "oppack", "cases": oc[i:i + PACK], "refs": True})
+    # (e) tags: every Python keyword, every name the generator itself reserves (read from the code under test, so the space follows it)
+    # and the spellings real documents use; one document per tag with a plain and a model-returning operation
+    for t in tag_menu():
+        out.append({"kind": "tag", "tag": t})
+    # (f) discriminated unions under every discriminator-property spelling and reserved union names
+    from . import c14
+
+    us = []
+    for prop in c14.DISC_PROPS + ["kind"]:
+        for uname in (None, "Filter", "Data", "Config"):
+            for disc in ("mapping", "implicit"):
+                us.append({"variants": ["VA", "VB"], "disc": disc, "nullable": False, "kw": "oneOf", "prop": prop, "uname": uname})
+    for u in us:
+        out.append({"kind": "union", "union": u})
     # (a) graphs
     gs = graphs.graphs(2, 1, req_flags=(0,)) if tier == "quick" else graphs.graphs(2, 1)
     if tier != "quick":
@@ -125,6 +139,36 @@ def cases(tier, seed):
         c["kind"] = "graph"
         out.append(c)
     return out
+
+
+TAG_SPELLINGS = ["Users", "users", "user-admin", "User Admin", "userAdmin", "DataSources", "apiKeys", "v1", "2fa", "x.y", "x/y", "a:b", "Pets & Owners",
+                 "models", "client", "core", "endpoints", "default", "é", "_", "__init__"]
+
+
+def tag_menu():
+    import keyword
+
+    try:
+        from pyopenapi_gen.core.utils import NameSanitizer
+
+        reserved = sorted(getattr(NameSanitizer, "RESERVED_NAMES", ()))
+    except Exception:
+        reserved = []
+    seen = set()
+    out = []
+    for t in list(keyword.kwlist) + list(keyword.softkwlist) + reserved + TAG_SPELLINGS:
+        if t not in seen:
+            seen.add(t)
+            out.append(t)
+    return out
+
+
+def tag_doc(tag):
+    a = ops.op("get", "/things", [ops.param("limit", "query", False, "integer")], None, {"200": "json-model"})
+    b = ops.op("delete", "/things/{id}", [ops.param("id", "path", True, "string")], None, {"204": "none"})
+    for c in (a, b):
+        c["tags"] = [tag]
+    return ops.build_doc([a, b], auto_tag=False)[0]
 
 
 # ----------------------------------------------------------------------------------------------
@@ -179,6 +223,20 @@ def run_case(case):
         fs = [{"sig": sig, "key": label, "msg": f"{label}: {msg}"} for sig, msg in res]
         return {"findings": fs, "nontrivial": label if graphs.has_cycle(case["nodes"]) else None,
                 "outcome": "graph:" + ("finding" if fs else "ok"), "sample": {"graph": label, "modules_imported": n}}
+    if k in ("tag", "union"):
+        if k == "tag":
+            doc = tag_doc(case["tag"])
+            label = f"tag|{case['tag']!r}"
+        else:
+            from . import c14
+
+            doc = c14.build_doc([case["union"]])
+            label = "union|" + c14.describe(case["union"])
+        kind, res, n = project_verdict(doc)
+        if kind == "rejected":
+            return {"findings": [], "outcome": "rejected:" + type(res).__name__, "nontrivial": label}
+        fs = [{"sig": sig, "key": label, "msg": f"{label}: {msg}"} for sig, msg in res]
+        return {"findings": fs, "nontrivial": label, "outcome": f"{k}:" + ("finding" if fs else "ok"), "sample": {k: label, "modules_imported": n}}
     if k == "fieldpack":
         fs = bisect(case["cases"], fields.pack_doc, lambda c: "field|" + fields.describe(c), stats)
         return {"findings": fs, "evals": stats["generations"], "nontrivial": ["field|" + fields.describe(c) for c in case["cases"]],
